@@ -22,8 +22,8 @@ Definition breaks (before : list (option obj)) (after : list (option obj)) (mv :
              | None => false
              end) (combine before after).
 
-Definition breaks_move (w : world) (src : res) (dest : path) (m : pymod) : bool :=
-  match move_module_text w src dest m with
+Definition breaks_move (V : variant) (w : world) (src : res) (dest : path) (m : pymod) : bool :=
+  match move_module_text V w src dest m with
   | Done m' =>
       let m2 := move_pymod_loc src dest m' in
       let w2 := move_world src dest w in
@@ -37,6 +37,9 @@ Definition breaks_rename (w : world) (src : res) (newn : N) (m : pymod) : bool :
   let m' := rename_module_text w src newn m in
   let w2 := map_world (rename_res src newn) w in
   breaks (map (resolve_ref w m) (m_refs m)) (map (resolve_ref w2 m') (m_refs m')) (move_obj (rename_res src newn)).
+
+(* the code once both MoveModule repairs are in *)
+Definition repaired : variant := {| v_relctx := true; v_rootfrom := true |}.
 
 (* project: packages a (with global g), c ; modules a/b.py {f}, a/t.py {f} *)
 Definition w1 : world :=
